@@ -866,6 +866,27 @@ fn vi_cmd(rng: &mut Rng, out: &mut Vec<String>, insert_mode: &mut bool, fast: bo
         }
         81..=84 => toks.push("1b".to_string()),
         85..=90 => toks.push(rng.pick(&["19", "14", "15", "17", "1f"]).to_string()),
+        91..=93 => {
+            // operator x character search from the start of the line towards a multi-byte target that
+            // the typed text is likely to contain (seeded change C17-m7: `y f é` sliced inside the char)
+            let target = *rng.pick(&['é', '漢', '\u{0131}', 'é']);
+            if rng.chance(2, 3) {
+                // make sure the target is there: `I a <target>`, ESC glued to `0`
+                toks.push("49".to_string());
+                toks.push("61".to_string());
+                toks.push(tok_char(target));
+                toks.push("1b30".to_string());
+            } else {
+                toks.push(rng.pick(&["30", "5e", "62"]).to_string());
+            }
+            let op = *rng.pick(b"yydc");
+            toks.push(format!("{:02x}", op));
+            toks.push(tok_char(*rng.pick(&['f', 't', 'f'])));
+            toks.push(tok_char(target));
+            if op == b'c' {
+                *insert_mode = true;
+            }
+        }
         _ => toks.push("0d".to_string()),
     }
     if fast {
@@ -1317,7 +1338,14 @@ fn vi_undo_keys(rng: &mut Rng, insert_mode: &mut bool, out: &mut Vec<String>) {
                 out.push("64".to_string());
                 out.push(format!("{:02x}", *rng.pick(b"wbe$0ldh")));
             }
-            72..=79 => out.push(format!("{:02x}", *rng.pick(b"xXDpP~"))),
+            72..=79 => {
+                let c = *rng.pick(b"xXDpP~");
+                if (c == b'p' || c == b'P') && rng.chance(1, 2) {
+                    // counted put: n copies, one undo unit
+                    out.push(format!("{:02x}", b'2' + rng.below(2) as u8));
+                }
+                out.push(format!("{:02x}", c));
+            }
             80..=84 => out.push("2e".to_string()),
             85..=89 => out.push("1f".to_string()),
             _ => out.push(format!("{:02x}", *rng.pick(b"hlwb0$"))),
@@ -1343,6 +1371,13 @@ fn undo_keys(rng: &mut Rng, out: &mut Vec<String>) {
             out.push("12".to_string());
             out.push(tok_char(*rng.pick(&['a', 'b'])));
             out.push("07".to_string());
+        }
+        96..=97 => {
+            // a counted yank is ONE edit: a kill, M-n C-y, then the undo probe (seeded change C05-m7)
+            out.push(rng.pick(&["17", "0b", "15"]).to_string());
+            out.push(format!("1b{:02x}", b'2' + rng.below(2) as u8));
+            out.push("19".to_string());
+            out.push("1f".to_string());
         }
         _ => {
             out.push("1b32".to_string());
